@@ -12,11 +12,11 @@ STEP_BUDGET = 20_000_000  # loop line events per outermost call: ten times the d
 RULE = ("case = (curve, t, regime, via method|setter); regimes: elevate (p<=4, t in 1..3: Bezier, multi-span, mixed "
         "multiplicities, multiplicity p+1, interior knot 0, rational), reduce-exact (curve built by the reference "
         "elevation of a degree-q curve, reduced by the same t), reduce-generic (random curve, default tolerance or "
-        "tolerance=None), invalid t (0, negative, non int, larger than the degree). non-trivial = the curve has an "
+        "tolerance=None: interpolation at the remaining knots and residual L2-orthogonal to the admissible variations), invalid t (0, negative, non int, larger than the degree). non-trivial = the curve has an "
         "interior knot or weights; distinct = case JSON")
 ANCHORS = ["Operations.degree_increase_bezier_once", "Operations.degree_increase", "Operations.split_curve", "Curve.degree_increase",
            "Curve.degree_decrease", "BaseCurve.update"]
-MIN_COUNTERS = {"elevations": 20, "reduce_exact": 20, "reduce_generic": 10, "invalid_requests": 5}
+MIN_COUNTERS = {"elevations": 20, "reduce_exact": 20, "reduce_generic": 10, "invalid_requests": 5, "best_approximation_checks": 10}
 ASSUMPTIONS = ["rational representability decided in homogeneous form", "float class judged on well-conditioned curves to 1e-9 (1e-8 for round trips)"]
 
 
@@ -196,6 +196,22 @@ def run_case(case, ctx):
                 a, bb = rc(k), new(k)
                 ok = a == bb if exact else lib.pts_close([float(x) for x in bb], a, 1e-9)
                 ctx.check(ok, f"reduce:none-interpolation:{kind}", f"tolerance=None: new({k}) = {lib.short(bb)} but old({k}) = {lib.short(a)}")
+            if W is None and new.W is None:
+                # constrained best approximation (round 8): the residual is L2-orthogonal to every function of the
+                # lower-degree space that vanishes at the remaining knots (null space of the evaluation map there)
+                q_, m_ = ref.wellformed(V)
+                G = [ref.basis(V, q_, z)[:m_] for z in ref.distinct(V)]
+                br = ref.merged_breaks(rc.breaks(), new.breaks())
+                scale = cv.scale_of(rc)
+                worst = None
+                for tv in ref.nullspace(G):
+                    g = lambda x, tv=tv: sum(c_ * n_ for c_, n_ in zip(tv, ref.basis(V, q_, x)[:m_]) if c_)
+                    for c in range(rc.dim):
+                        ip = ref.l2_inner(lambda x, c=c: rc(x)[c] - new(x)[c], g, br, rc.p, q_)
+                        ctx.count("best_approximation_checks")
+                        if (ip != 0 if exact else abs(float(ip)) > 1e-6 * scale * max(1.0, float(br[-1] - br[0]))) and worst is None:
+                            worst = (c, float(ip))
+                ctx.check(worst is None, f"reduce:none-not-best:{kind}", f"tolerance=None: residual not L2-orthogonal to the admissible variations (coordinate, <r, g>) = {worst}")
     else:
         ctx.count("reduced_lossy")
         deviation_ok(ctx, rc, new, tol, exact, f"reduce:silently-lossy:{kind}", f"degree_decrease({t}, tol={tolname}) succeeded")
